@@ -40,6 +40,8 @@ REQUIRED = ["histories", "connections_up", "connections_down",
             "loss_mid_handshake",
             "barrier_unsupported_path", "reads_carrying_several_messages",
             "connection_level_events_compared", "registry_checks_in_down_handler",
+            "histories_without_a_nexus_level_up_listener",
+            "nexus_level_up_listeners_that_failed",
             "errors_resembling_barrier_unsupported", "messages_split_across_reads",
             "features_replies_on_stale_connections",
             "connections_closed_again_by_a_down_handler",
@@ -103,7 +105,16 @@ class Monitor (object):
     self.flags = set()
     self.bad = False
     core = world.core
-    core.openflow.addListenerByName("ConnectionUp", self.on_up)
+    # how the nexus-level ConnectionUp is listened to: by this monitor (the
+    # usual way), by nobody (the monitor then listens on each connection
+    # object only), or also by a component whose handler fails -- an event
+    # that nobody on the nexus handled, or whose handling failed, is still
+    # owed to the connection's own listeners
+    self.upl = case.get("up_listener")
+    if self.upl != "absent":
+      core.openflow.addListenerByName("ConnectionUp", self.on_up)
+    else:
+      rep.count("histories_without_a_nexus_level_up_listener")
     core.openflow.addListenerByName("ConnectionDown", self.on_down)
     core.openflow.addListenerByName("PortStatus", self.on_ps)
     self.handlers_attached = True
@@ -118,6 +129,13 @@ class Monitor (object):
         return EventHalt
       self.halter = halter
       core.openflow.addListenerByName("ConnectionUp", halter, priority=-1000)
+    self.thrower = None
+    if self.upl == "throws":
+      def thrower (e):
+        self.rep.count("nexus_level_up_listeners_that_failed")
+        raise RuntimeError("a component's ConnectionUp handler fails")
+      self.thrower = thrower
+      core.openflow.addListenerByName("ConnectionUp", thrower, priority=-1000)
 
   def fire (self, key, what):
     self.bad = True
@@ -240,7 +258,9 @@ class Monitor (object):
     for con in reversed(_cons):
       if con.sock is p.c:
         p.con = con
-        def up (e): p.cup += 1
+        def up (e):
+          p.cup += 1
+          if self.upl == "absent": self.on_up(e)
         def down (e):
           p.cdown += 1
           self.reclose(p, con, "con")
@@ -560,7 +580,8 @@ def _run_history (case, rep, w):
     except Exception:
       pass
     for name, h in (("ConnectionUp", mon.on_up), ("ConnectionDown", mon.on_down),
-                    ("PortStatus", mon.on_ps), ("ConnectionUp", mon.halter)):
+                    ("PortStatus", mon.on_ps), ("ConnectionUp", mon.halter),
+                    ("ConnectionUp", mon.thrower)):
       if h is None: continue
       try: core.openflow.removeListener(h)
       except Exception: pass
@@ -594,7 +615,7 @@ def do_case (case, rep):
                   traceback.format_exc()[-900:], case)
     nt = True
   rep.case(repr((case["ops"], case.get("reclose"), case.get("nexus_cfg"),
-                 case.get("halt_up"))).encode(),
+                 case.get("halt_up"), case.get("up_listener"))).encode(),
            nontrivial=bool(nt))
 
 
@@ -720,6 +741,7 @@ def run (spec, rep):
   for case in g:
     n += 1
     if n % 5 == 2: case["halt_up"] = True
+    elif n % 5 == 4: case["up_listener"] = ("throws", "absent")[(n // 5) % 2]
     if n % 4 == 1:
       case["nexus_cfg"] = [(None, False), (None, True), (0xffff, False), (0, True)][(n // 4) % 4]
     if n % 3 == 0:
